@@ -255,3 +255,18 @@ Theorem set_step_unsigned_wrap_refuted : exists vals v x xi,
   nth_error vals (argmin (map (fun y => (y - v) mod 2 ^ 32) vals)) = Some xi /\ Z.abs (x - v) < Z.abs (xi - v).
 Proof. exact nearest_unsigned_wrap_refuted. Qed.
 Print Assumptions set_step_unsigned_wrap_refuted.
+
+(** the property in its two-route form: on a uniform listing any two action sequences that end at the same
+    reported index show the same index, time, step and tables; in particular next then prev (where next can
+    move) and prev then next (where prev can move) put back exactly what was shown *)
+Theorem nav_same_index_same_observation : forall rnd L, lsets L <> [] -> uniform L -> forall ops1 ops2,
+  idx (run rnd L (open L) ops1) = idx (run rnd L (open L) ops2) ->
+  observe (run rnd L (open L) ops1) = observe (run rnd L (open L) ops2).
+Proof. exact nav_same_index_same_obs. Qed.
+Print Assumptions nav_same_index_same_observation.
+Theorem next_prev_round_trip_restores : forall rnd L, lsets L <> [] -> uniform L -> forall ops,
+  let s := run rnd L (open L) ops in
+  (idx s < nsets L - 1 -> observe (run rnd L s [Next; Prev]) = observe s) /\
+  (0 < idx s -> observe (run rnd L s [Prev; Next]) = observe s).
+Proof. exact next_prev_round_trip. Qed.
+Print Assumptions next_prev_round_trip_restores.
